@@ -17,7 +17,7 @@ bind: (a) sequences of evaluations over a catalogue of ~150 forms of the full su
       SourceStream / SourceFile / SourceExpressions / zygo.EvalFunction / Clear (pending chunks, program counter,
       what runs when), model-checked (the pinned Apply and EvalFunction variants are refuted) and bound by every
       history of <= 3 host calls over a 22-call alphabet (of the 3-call histories using the source/EvalFunction
-      letters the quick tier takes a seeded half) plus seeded long ones (EntryTrace.tla);
+      letters the quick tier takes a seeded third) plus seeded long ones (EntryTrace.tla);
       (c) the stack effect of every VM instruction executed (step tracer) against VMEffects.tla, the table
       Bytecode.tla executes with (EffectTrace.tla).
 """
